@@ -318,7 +318,7 @@ fn rendered_expressible(a: &Ast) -> bool {
         Ast::Lit(v) => v.literal().is_some() && !matches!(v, RV::Tuple(_) | RV::Empty),
         Ast::Var(_) | Ast::Unit => true,
         Ast::Bin(_, l, r) => rendered_expressible(l) && rendered_expressible(r),
-        Ast::Pre(_, e) | Ast::Asg(_, _, e) | Ast::Call(_, e) => rendered_expressible(e),
+        Ast::Pre(_, e) | Ast::Asg(_, _, e) | Ast::Call(_, e) | Ast::Partial(_, e) => rendered_expressible(e),
         Ast::Tuple(es) | Ast::Chain(es) => es.iter().all(rendered_expressible),
     }
 }
